@@ -273,8 +273,10 @@ def main(tier):
     M, W, R, E = _mods()
     rep = common.SimpleReport(PROP, tier, level='model_checking')
     missing, stale, n_cov, n_excl = W.catalogue_gaps()
-    jobs = _jobs(tier)
-    deadline = time.time() + (240 if tier == 'quick' else 1500)
+    # the whole space costs about half a minute: the quick tier explores
+    # what the thorough tier explores
+    jobs = _jobs('thorough')
+    deadline = time.time() + (400 if tier == 'quick' else 1500)
     results = common.parallel_map(_job, jobs, deadline=deadline)
 
     harness = []
